@@ -10,7 +10,7 @@ cd "$WT"
 BTREES_VERIF=${HOOK:-} /venv/bin/python setup.py -q build_ext --inplace -j 16 >/dev/null 2>&1
 PYTHONPATH=$WT/src timeout 600 /venv/bin/python "$D/demo-$X.py" >/dev/null 2>&1; CLEAN=$?
 git apply "$D/patch-$X.diff" || { echo "CONFIRM $D $X: PATCH DOES NOT APPLY"; cd /; git -C /repo worktree remove --force "$WT"; exit 3; }
-BTREES_VERIF=${HOOK:-} /venv/bin/python setup.py -q build_ext --inplace -j 16 >/dev/null 2>&1; BUILD=$?
+BTREES_VERIF=${HOOK:-} /venv/bin/python setup.py -q build_ext --inplace --force -j 16 >/dev/null 2>&1; BUILD=$?
 PYTHONPATH=$WT/src timeout 600 /venv/bin/python "$D/demo-$X.py" >/dev/null 2>&1; PATCHED=$?
 SUITE=$(PYTHONPATH=$WT/src /venv/bin/python -m pytest -q -p no:cacheprovider -n 8 src/BTrees/tests 2>&1 | tail -1)
 cd /
